@@ -1977,7 +1977,18 @@ def r5_ducb_play_counter(ck, repo):
                                       f"does not depend on the number of arms ({shown}): its length saturates there, and with 2 * n_arms above the bound the initial-rounds test never becomes false "
                                       "(the scheduler plays round-robin for ever and the index policy is never used)", loc(mi, x))
                         elif isinstance(x, ast.Delete) and any(isinstance(t, ast.Subscript) and dotted(t.value) in tgts or dotted(t) in tgts for t in x.targets):
-                            unread.append(f"{where}: `{short(x, 60)}`")
+                            # `del x[:-M]` keeps the last M entries - the same truncation as `x = x[-M:]`
+                            keep = [t for t in x.targets if isinstance(t, ast.Subscript) and dotted(t.value) in tgts and isinstance(t.slice, ast.Slice) and t.slice.lower is None
+                                    and t.slice.step is None and isinstance(t.slice.upper, ast.UnaryOp) and isinstance(t.slice.upper.op, ast.USub)]
+                            at = cfg_of(fn).stmt_node.get(id(x))
+                            if len(keep) == len(x.targets) == 1 and at is not None and bound_kind(keep[0].slice.upper.operand, scope, fn, mi, at) == "independent":
+                                n_sites += 1
+                                shown = f"last {short(keep[0].slice.upper.operand, 40)} entries"
+                                ck.ob("R5-scheduler", C, f"play-counter-unbounded:{A}:{where.split('.', 2)[-1]}", False, f"`{short(x, 60)}` ({shown})",
+                                      f"choose_arm counts the plays as len(self.{A}) (initial rounds while the count is below 2 * n_arms), but the container is cut back to a length that "
+                                      f"does not depend on the number of arms ({shown}): its length saturates there, and with 2 * n_arms above the bound the initial-rounds test never becomes false", loc(mi, x))
+                            else:
+                                unread.append(f"{where}: `{short(x, 60)}`")
                         elif isinstance(x, ast.AugAssign) and dotted(x.target) in tgts and not isinstance(x.op, ast.Add):
                             unread.append(f"{where}: `{short(x, 60)}`")
                         for c in ast.walk(x) if not isinstance(x, (ast.If, ast.For, ast.While, ast.With, ast.Try)) else []:
@@ -2378,6 +2389,7 @@ def run(ck, repo: Repo, tier: str):
 # ---- self-validation variants (thorough tier) ------------------------------------------------------------
 _A = "rl_blox/algorithm/"
 MUTANTS = [
+    {"id": "c11-ducb-history-cut-back-with-del", "file": "rl_blox/blox/mapb.py", "rule": "R5", "find": '        self.rewards.append(r)\n        self._episode_finished()\n', "replace": '        self.rewards.append(r)\n        del self.rewards[:-400]\n        del self.chosen_arms[:-400]\n        self._episode_finished()\n'},
     {"id": "c11-amt-warm-up-relative-to-task", "file": _A + "active_mt.py", "rule": "R5", "find": '            learning_starts=learning_starts,\n            total_timesteps=total_timesteps,\n', "replace": '            learning_starts=max(0, learning_starts - training_steps[task_id]),\n            total_timesteps=total_timesteps,\n'},
     {"id": "c11-amt-warm-up-minus-global", "file": _A + "active_mt.py", "rule": "R5", "find": '            learning_starts=learning_starts,\n            total_timesteps=total_timesteps,\n', "replace": '            learning_starts=learning_starts - global_step,\n            total_timesteps=total_timesteps,\n'},
     {"id": "c11-td3-guard-le", "file": _A + "td3.py", "rule": "R2-budget", "find": "    while step < total_timesteps:", "replace": "    while step <= total_timesteps:"},
